@@ -37,6 +37,7 @@ EVENTS = [
     ('AUTH-plain-ok', ('AUTH PLAIN %s\r\n' % _plain).encode()), ('AUTH-bad-base64', b'AUTH PLAIN !!!\r\n'),
     ('AUTH-noarg', b'AUTH\r\n'), ('FOO', b'FOO bar\r\n'), ('empty-line', b'\r\n'),
     ('EHLO-nonutf8', b'EHLO \xff\r\n'),
+    ('XHELP', b'XHELP\r\n'),                # an application command answered 214: a 2xx code that does not close
     ('XCUST', b'XCUST now\r\n'),
     # a command pipelined in the same segment as the end-of-data line (accepted and over-size message)
     ('DATA-x+NOOP', b'DATA\r\nSubject: t\r\n\r\nx\r\n.\r\nNOOP\r\n'),
@@ -215,7 +216,8 @@ def bfs(cfg, res, tier):
                 res.violation({'kind': 'merge-differential', 'event': name},
                               'two histories reach the same abstract state but differ on %s: %r -> %r  VS  %r -> %r'
                               % (name, hist1, a[2], hist2, b[2]),
-                              {'cfg': cfg, 'banner': bv1, 'hist': [[n, list(v) if v else None] for n, v in hist1 + [(name, None)]]})
+                              {'cfg': cfg, 'banner': bv1, 'hist': [[n, list(v) if v else None] for n, v in hist1 + [(name, None)]],
+                               'other': {'banner': bv2, 'hist': [[n, list(v) if v else None] for n, v in hist2 + [(name, None)]]}})
     return seen
 
 
@@ -293,4 +295,13 @@ def replay(rep):
     viols, key, obs, reached, closed, undef = judge_history(cfg, bv, hist)
     if viols:
         return True, viols[0][1]
+    if rep.get('other'):
+        # differential check of the state merge: the same event after two histories that reach the same abstract state
+        o = rep['other']
+        bv2 = tuple(o['banner']) if o.get('banner') else None
+        hist2 = [(n, tuple(v) if v else None) for n, v in o['hist']]
+        b = judge_history(cfg, bv2, hist2)
+        if (key, obs) != (b[1], b[2]):
+            return True, ('two histories reach the same abstract state but differ on their last event: %r -> state %r, %r  VS  %r -> state %r, %r'
+                          % (hist, key[0], obs, hist2, b[1][0], b[2]))
     return False, 'last event judged correct by the reference: %r' % (obs,)
